@@ -41,6 +41,9 @@ var importSwap = map[string]string{
 // packages whose function entries count steps (deterministic work measure for C15)
 var tickPkgs = map[string]bool{modPath + "/graphql": true, modPath + "/federation": true}
 
+// wrap map element reads / writes / deletes of instrumented packages for the happens-before race monitor (vrt/rt/race.go)
+var raceInstr = true
+
 var shimmedPkgs = map[string]bool{"sync": true, "sync/atomic": true, "time": true, "golang.org/x/sync/errgroup": true}
 
 type edit struct {
@@ -275,6 +278,12 @@ func (f *fileRW) collect() {
 						} else {
 							f.add(x, func() string { return "(" + f.node(x.Args[0]) + ").Close()" })
 						}
+					case "delete":
+						if _, ok := f.isMap(x.Args[0]); ok && raceInstr {
+							s, e := f.off(x.Args[0].Pos()), f.off(x.Args[0].End())
+							f.addRange(s, s, func() string { return "vrt_rt.MW(" })
+							f.addRange(e, e, func() string { return ")" })
+						}
 					case "len", "cap":
 						if f.isChan(x.Args[0]) {
 							m := map[string]string{"len": "Len", "cap": "Cap"}[id.Name]
@@ -293,6 +302,25 @@ func (f *fileRW) collect() {
 						f.errorf(x, "context.%s uses real time; not supported in instrumented code", x.Sel.Name)
 					}
 				}
+			}
+		case *ast.IndexExpr:
+			if _, ok := f.isMap(x.X); ok && raceInstr {
+				fn := "vrt_rt.MR("
+				switch p := f.par[x].(type) {
+				case *ast.AssignStmt:
+					for _, l := range p.Lhs {
+						if l == ast.Expr(x) {
+							fn = "vrt_rt.MW("
+						}
+					}
+				case *ast.IncDecStmt:
+					if p.X == ast.Expr(x) {
+						fn = "vrt_rt.MW("
+					}
+				}
+				s, e := f.off(x.X.Pos()), f.off(x.X.End())
+				f.addRange(s, s, func() string { return fn })
+				f.addRange(e, e, func() string { return ")" })
 			}
 		case *ast.SendStmt:
 			if f.external(x.Chan) {
